@@ -104,6 +104,48 @@ package router
 //@   ensures (ret1 == nil) <==> placeOK(l.linkToRule.shard, key)
 //@   ensures ret1 == nil ==> ret0 == place(l.linkToRule.shard, key)
 
+// implementations of RangeShard.EqualStart against the interface clause "true only for the smallest key of table
+// index", instantiated per implementation (numeric rule: klt = numeric order, place = the containing interval;
+// calendar rules: klt = chronological order, place = the period number)
+//@ pure ascending(l []NumKeyRange) bool = forall(a, 0, len(l), l[a].Start <= l[a].End && forall(b, a+1, len(l), l[a].End <= l[b].Start && l[a].End < 9223372036854775807))
+// keyPeriodStart(k, unit): k is the first instant of its year (unit 0), month (1) or day (2):
+// 'YYYY-MM-DD' / 'YYYY-MM-DD 00:00:00' with day 01 (and month 01), or a unix timestamp at local midnight of such a day
+//@ pure hourOf(t time.Time) int
+//@ pure minuteOf(t time.Time) int
+//@ pure secondOf(t time.Time) int
+//@ pure dayOf(t time.Time) int
+//@ pure monthOf(t time.Time) time.Month
+//@ trusted (time.Time).Hour
+//@   params t
+//@   pure-call
+//@   ensures ret0 == hourOf(t)
+//@ trusted (time.Time).Minute
+//@   params t
+//@   pure-call
+//@   ensures ret0 == minuteOf(t)
+//@ trusted (time.Time).Second
+//@   params t
+//@   pure-call
+//@   ensures ret0 == secondOf(t)
+//@ trusted (time.Time).Day
+//@   params t
+//@   pure-call
+//@   ensures ret0 == dayOf(t)
+//@ trusted (time.Time).Month
+//@   params t
+//@   pure-call
+//@   ensures ret0 == monthOf(t)
+//@ pure periodStartStr(s string, unit int) bool = len(s) >= 10 && (len(s) == 10 || s[10:] == " 00:00:00") && (unit > 1 || s[8:10] == "01") && (unit != 0 || s[5:7] == "01")
+//@ pure periodStartTime(t time.Time, unit int) bool = hourOf(t) == 0 && minuteOf(t) == 0 && secondOf(t) == 0 && (unit > 1 || dayOf(t) == 1) && (unit != 0 || monthOf(t) == 1)
+//@ pure keyPeriodStart(k interface{}, unit int) bool = ite(typeis(k, string), periodStartStr(unbox(k, string), unit), isIntKey(k) && periodStartTime(unixTime(unixOf(k)), unit))
+//@ property C01: isDateKeyPeriodStart
+//@ func isDateKeyPeriodStart
+//@   assigns \nothing
+//@   ensures ret0 <==> keyPeriodStart(key, unit)
+//@ property C01: lemma numRangeMonotone, (*NumRangeShard).EqualStart, (*NumRangeShard).FindForKey
+//@ lemma numRangeMonotone: forall(l []NumKeyRange, forall(x int64, forall(y int64, forall(a, 0, len(l), forall(b, 0, len(l),
+//@        ascending(l) && x <= y && contains(l[a], x) && contains(l[b], y) ==> a <= b)))))
+
 // ---------------------------------------------------------------- C09 numeric ranges
 // numeric value of a sharding key, as the router reads it
 //@ pure numOK(v interface{}) bool = typeis(v, int) || typeis(v, uint64) || typeis(v, int64) ||
@@ -140,6 +182,22 @@ package router
 //@   requires s != nil && 0 <= index && index < len(s.Shards)
 //@   may-panic when !numOK(key)
 //@   ensures ret0 <==> s.Shards[index].Start == numVal(key)
+//@   ensures case minimal: ret0 && ascending(s.Shards) ==> forall(k interface{}, numOK(k) && numVal(k) < numVal(key) ==>
+//@        forall(j, index, len(s.Shards), !contains(s.Shards[j], numVal(k))))
+
+//@ property C01: (*DateYearShard).EqualStart, (*DateMonthShard).EqualStart, (*DateDayShard).EqualStart
+//@ func (*DateYearShard).EqualStart
+//@   assigns \nothing
+//@   ensures case period:  ret0 ==> atoiVal(dateKey(key)[0:4]) == index
+//@   ensures case minimal: ret0 ==> keyPeriodStart(key, 0)
+//@ func (*DateMonthShard).EqualStart
+//@   assigns \nothing
+//@   ensures case period:  ret0 ==> atoiVal(dateKey(key)[0:4] + dateKey(key)[5:7]) == index
+//@   ensures case minimal: ret0 ==> keyPeriodStart(key, 1)
+//@ func (*DateDayShard).EqualStart
+//@   assigns \nothing
+//@   ensures case period:  ret0 ==> atoiVal(dateKey(key)[0:4] + dateKey(key)[5:7] + dateKey(key)[8:10]) == index
+//@   ensures case minimal: ret0 ==> keyPeriodStart(key, 2)
 
 // ---------------------------------------------------------------- C09 calendar rules
 // time.Unix / Format("2006-01-02") / Year as uninterpreted functions (trusted standard library)
